@@ -23,3 +23,7 @@ def run(ctx):
     run_kernels(ctx, ["K16", "K13"], "C07")
     ctx.guard(getitem_rule, ctx, "C07.freshness.getitem")
     ctx.guard(ctor_rule, ctx, "C07.freshness.ctor")
+    from ..rules_misc import fragment_cache_rule
+    ctx.guard(fragment_cache_rule, ctx, "C07.no-fragment-cache")
+    from ..rules_flow import k17_entry
+    ctx.guard(k17_entry, ctx, "C07")
